@@ -109,7 +109,7 @@ def effects(mod, stmts, env):
                             ast.Assert, ast.Match, ast.AsyncFor, ast.AsyncWith, ast.Break, ast.Try)):
             raise Unsupported(n, 'statement %s is outside the supported subset' % type(n).__name__)
         ms = method_stmt(None, n)
-        if ms and ms[0] == 'extend' and ms[1] not in e.assigned:
+        if ms and ms[0] in ('extend', 'append', 'update') and ms[1] not in e.assigned:
             e.assigned.append(ms[1])
         if isinstance(n, ast.Raise):
             if raise_is_return(mod, n, env):
@@ -296,6 +296,8 @@ def block(stmts, env, ctx, tail):
                 raise Unsupported(s, 'return of a %s where the signature file says %s' % (t, ctx.ret))
             return ctx.ret_(env, 'inl %s' % par(v), s)
         v, t = expr(env, s.value, ctx.ret)
+        if ctx.ret[0] == 'option' and t == ctx.ret[1]:
+            v, t = 'Some %s' % par(v), ctx.ret             # None | T is option T
         if t != ctx.ret:
             raise Unsupported(s, 'return of a %s where the signature file says %s' % (t, ctx.ret))
         return ctx.ret_(env, v, s)
@@ -333,6 +335,22 @@ def block(stmts, env, ctx, tail):
             raise Unsupported(s, 'extend of a %s by a %s' % (lt, t))
         e2 = env.fork()
         return let(cq, '%s ++ %s' % (par(cq), par(v)), k(e2))
+    ms_ = method_stmt(None, s) if isinstance(s, ast.Expr) else None
+    if ms_ and ms_[0] == 'append' and ms_[1] in env.vars and len(s.value.args) == 1:
+        cq, lt = env.vars[ms_[1]]
+        if lt[0] != 'list':
+            raise Unsupported(s, 'append to a %s' % (lt,))
+        v, t = expr(env, s.value.args[0], lt[1])
+        if t != lt[1]:
+            raise Unsupported(s, 'append of a %s to a %s' % (t, lt))
+        return let(cq, '%s ++ [%s]' % (par(cq), v), k(env.fork()))
+    if ms_ and ms_[0] == 'update' and ms_[1] in env.vars and len(s.value.args) == 1:
+        cq, dt = env.vars[ms_[1]]
+        rule = ctx.mod.T.table.get(dt[0], {}).get('update')
+        v, t = expr(env, s.value.args[0])
+        if rule is None or t != dt:
+            raise Unsupported(s, 'update of a %s by a %s' % (dt, t))
+        return let(cq, rule.format(par(cq), par(v)), k(env.fork()))
     if isinstance(s, ast.While):
         return while_stmt(s, env, ctx, k)
     if isinstance(s, ast.Expr):
@@ -528,6 +546,7 @@ def assign(s, target, value, env, ctx, k):
         if target.id in env.vars and env.vars[target.id][1] != t and target.id not in (mod._cur or {}).get('retype', []):
             raise Unsupported(s, 'local %s changes type from %s to %s' % (target.id, env.vars[target.id][1], t))
         e2.vars[target.id] = (cq, t)
+        e2.known.pop(target.id, None)
         e2.funopts.pop(target.id, None)
         e2.tables.pop(target.id, None)
         return let(cq, v, k(e2))
@@ -536,6 +555,8 @@ def assign(s, target, value, env, ctx, k):
         ftype = mod.structs[env.structs[target.value.id]][key.split('.')[1]]
         fname = '%s_%s' % (cname(key.split('.')[0]), cname(key.split('.')[1]))
         v, t = expr(env, value, ftype)
+        if ftype[0] == 'option' and t == ftype[1]:
+            v, t = 'Some %s' % par(v), ftype                 # None | T is option T
         if t != ftype:
             raise Unsupported(s, 'store of a %s into field %s of type %s' % (t, key, ftype))
         e2.vars[key] = (fname, t)
@@ -603,6 +624,8 @@ def condition(test, env, ctx, node):
         name, is_not = nt
         cq, t = env.vars[name]
         (et if is_not else ee).vars[name] = (cq + '_v', t[1])
+        (et if is_not else ee).known[name] = 'some'
+        (ee if is_not else et).known[name] = 'none'
 
         def wrap(a, b):
             some, none = (a, b) if is_not else (b, a)
@@ -645,6 +668,13 @@ def condition(test, env, ctx, node):
 
 
 def if_stmt(s, rest, env, ctx, tail):
+    nt0 = none_test(env, s.test)
+    if nt0 and nt0[0] in env.known:
+        # an enclosing test of the same local already decided this one: only the live branch exists
+        live = s.body if (env.known[nt0[0]] == 'some') == nt0[1] else s.orelse
+        if terminates(live):
+            return block(list(live), env, ctx, tail)       # what follows the if is not reached on this path
+        return block(list(live) + list(rest), env, ctx, tail)
     wrap, et, ee = condition(s.test, env, ctx, s)
     tb, to = terminates(s.body), terminates(s.orelse)
 
